@@ -143,6 +143,20 @@ def check_pair(case):
                 out.viol('div-inf', 'div_(%s, join=%s) contains inf: %s' % (desc, how, list(res.values)), **sig)
             if not (a.equals(sa) and b.equals(sb)):
                 out.viol('operand-mutated', '%s_(%s) changed an operand' % (op, desc), **sig)
+            if op == 'div':
+                # tiny but non-zero denominators divide like any other number (only an exact zero gives NaN)
+                out.sub()
+                try:
+                    rt = opfun('div')(tm.build_series(ma), tm.build_series(mb) * 1e-9, join=how)
+                    out.call()
+                    days_t = tm.common_days([set(ma), set(mb)], how)
+                    xa, xb = tm.align(ma, days_t), tm.align(mb, days_t)
+                    expt = {d: (None if (xa[d] is None or xb[d] is None or xb[d] == 0) else xa[d] / (xb[d] * 1e-9)) for d in days_t}
+                    pt = result_problem(rt, expt, 'div_(%s with b scaled by 1e-9, join=%s)' % (desc, how))
+                    if pt:
+                        out.viol('wrong-value', pt, tiny=True, **sig)
+                except Exception as e:
+                    out.viol('raised', 'div_(%s with b scaled by 1e-9, join=%s) raised %s: %s' % (desc, how, type(e).__name__, e), exc=type(e).__name__, tiny=True, **sig)
             if op in ('div', 'add'):
                 # a fill method on the alignment (C03's as-of fill / a constant) comes BEFORE the operation: zeros the fill creates or carries forward
                 # are divisors like any other (NaN, never inf), zeros in the data are not holes to be filled
@@ -545,6 +559,24 @@ def check_lists(case):
                     out.viol('wrong-aggregate', p, **sig)
             except Exception as e:
                 out.viol('raised', '%s(%s) raised %s: %s' % (fname, desc, type(e).__name__, e), exc=type(e).__name__, **sig)
+    # ---- a scalar among the operands of the aggregates: an observation at every date of the union index (a NaN scalar is no observation)
+    if days:
+        for sc, sname in ((10.0, '10.0'), (float('nan'), 'nan')):
+            obs = 0 if sc != sc else 1
+            cnt2 = {d: exp_cnt[d] + obs for d in days}
+            sum2 = {d: (None if cnt2[d] == 0 else (exp_sum[d] or 0.0) + (sc if obs else 0.0)) for d in days}
+            mean2 = {d: (None if cnt2[d] == 0 else sum2[d] / cnt2[d]) for d in days}
+            for fname, exp in (('df_sum', sum2), ('df_mean', mean2), ('df_count', {d: float(v) for d, v in cnt2.items()})):
+                out.sub()
+                sig = dict(op=fname, form='list+scalar', k=k)
+                try:
+                    res = getattr(P, fname)(fresh() + [sc])
+                    out.call()
+                    p = result_problem(res, exp, '%s(%s and the scalar %s)' % (fname, desc, sname))
+                    if p:
+                        out.viol('wrong-aggregate', p, scalar=sname, **sig)
+                except Exception as e:
+                    out.viol('raised', '%s(%s and the scalar %s) raised %s: %s' % (fname, desc, sname, type(e).__name__, e), exc=type(e).__name__, scalar=sname, **sig)
     if len(set(frozenset(m) for m in models)) > 1:
         out.nontrivial()
     out.cls('list-%d-%s' % (k, 'gap' if any(v == 0 for v in exp_cnt.values()) else 'full'))
